@@ -14,6 +14,7 @@ import (
 	"sync"
 
 	"github.com/yuin/goldmark"
+	"github.com/yuin/goldmark/ast"
 	"github.com/yuin/goldmark/extension"
 	"github.com/yuin/goldmark/parser"
 	"github.com/yuin/goldmark/renderer"
@@ -95,6 +96,21 @@ func extensionsOf(name string) []goldmark.Extender {
 	case "all-pt":
 		return []goldmark.Extender{extension.GFM, extension.DefinitionList, fnParsersOnly{}, extension.Typographer,
 			extension.NewCJK(extension.WithEastAsianLineBreaks(), extension.WithEscapedSpace())}
+	case "allopts": // every extension with non-default options (templates, functions, regexps, substitutions)
+		return []goldmark.Extender{
+			extension.NewLinkify(extension.WithLinkifyAllowedProtocols([]string{"http:", "https:", "ftp:"})),
+			extension.NewTable(extension.WithTableCellAlignMethod(extension.TableCellAlignStyle), extension.WithTableHTMLOptions(html.WithXHTML())),
+			extension.Strikethrough, extension.TaskList, extension.DefinitionList,
+			extension.NewFootnote(extension.WithFootnoteLinkClass("fn-^^-%%"), extension.WithFootnoteBacklinkClass("bk-%%"), extension.WithFootnoteLinkTitle("to ^^"),
+				extension.WithFootnoteBacklinkTitle("back %% of ^^"), extension.WithFootnoteBacklinkHTML("^"), extension.WithFootnoteIDPrefixFunction(func(n ast.Node) []byte {
+					if n.OwnerDocument() != nil && n.OwnerDocument().ChildCount()%2 == 0 {
+						return []byte("e-")
+					}
+					return []byte("o-")
+				})),
+			extension.NewTypographer(extension.WithTypographicSubstitutions(map[extension.TypographicPunctuation]string{
+				extension.LeftDoubleQuote: "<<", extension.RightDoubleQuote: ">>", extension.EnDash: "--", extension.Ellipsis: "...."})),
+			extension.NewCJK(extension.WithEastAsianLineBreaks(extension.EastAsianLineBreaksCSS3Draft), extension.WithEscapedSpace())}
 	case "nocjk": // everything except CJK
 		return []goldmark.Extender{extension.GFM, extension.DefinitionList, extension.Footnote, extension.Typographer}
 	}
